@@ -1365,6 +1365,8 @@ class LangServer:
                 if ast_old is not None:
                     for key in ast_old.global_dict:
                         self.obj_tree.pop(key, None)
+                for _, other_obj in self.workspace.items():
+                    other_obj.ast.resolve_includes(self.workspace, path=filepath)
                 self.link_version = (self.link_version + 1) % 1000
                 for _, other_obj in self.workspace.items():
                     other_obj.ast.resolve_links(self.obj_tree, self.link_version)
